@@ -126,6 +126,10 @@ add("F46", ["C12"], "C12.pairing|scope|bind_pattern", "same for a tuple pattern 
 add("F46", ["C12"], "C12.pairing|scope|compile_decision_tree", "same for payload bindings of a tuple match: `match (l, 1.0) { (Cons(h, t), 1) => h, _ => 0.0 }` grows by one heap object per sample")
 
 
+# ---- WASM scheduler: scheduled closures are reclaimed (C11.closure-lifetime, also a VM/WASM difference) ----------
+add("F47", ["C11", "C01"], "C11.closure-lifetime|executor|generate_exec_closure_trampoline", "two self-rescheduling functions (`a@(now+2.0)` in a, `b@(now+5.0)` in b): `_mimium_exec_closure_void` restores the allocation pointer after each task, the re-scheduled closure's memory is reused by the next task, and WASM runs b where a was due: VM 0,1,101,102,102,103 … vs WASM 0,1,101,201,201,201 … (findings/repro/F47_*.mmm, run with the scheduler plugin)")
+
+
 def main():
     extra = os.path.join(HERE, "tools", "findings_more.py")
     if os.path.exists(extra):
